@@ -452,6 +452,16 @@ example :
 theorem drainCq_ops (s : Sys) (a : Acc) : (s.drainCq a).1.ops = (processAll s a s.cq).1.ops := by
   simp [Sys.drainCq, processAll]
 
+/-- The same for the function the `life` driver runs for `Ring::poll`'s completion loop: after
+`drainCq`, operation `i` is its previous state advanced by exactly the queued completions
+addressed to it, in queue order, and the queue is empty. -/
+theorem C02_drain_own_completions_only (s : Sys) (a : Acc) (i : Nat) :
+    (s.drainCq a).1.ops[i]? = s.ops[i]?.map (fun o => (s.cq.filter (addressed i)).foldl upd1 o) ∧
+    (s.drainCq a).1.cq = [] := by
+  constructor
+  · rw [drainCq_ops, C02_own_completions_only]
+  · simp [Sys.drainCq]
+
 end A10.Life
 
 namespace A10.OpSys
